@@ -108,12 +108,13 @@ def rule_MK3(ctx, rep):
         src = ins[0].args[0]
         vals = [v for _, v, _ in definitions(sf.node, norm(src))] if isinstance(src, ast.Name) else []
         opened = {norm(t) for s in iter_nodes(sf.node) if isinstance(s, ast.Assign) and isinstance(s.value, ast.Await) for t in s.targets}
+        # every value the input can hold, with its condition (statement or expression form alike): one that is computed from
+        # opened data is held only by the party with `pid == leader`
+        from . import cond
         leak = False
-        for st, v, how in (definitions(sf.node, src.id) if isinstance(src, ast.Name) else []):
-            if v is not None and ({x.id for x in ast.walk(v) if isinstance(x, ast.Name)} & opened):
-                from . import sem
-                g = sem._ctx_of(sf, st, pm)        # canonical atomic conditions with their truth (a != b is (a == b, False))
-                if not any('.pid' in t and '==' in t and tv for t, tv in g):
+        for f, v in cond.expr_cases(sf, src, ins[0], pm, keep=opened):
+            if {x.id for x in ast.walk(v) if isinstance(x, ast.Name)} & opened:
+                if not any(('.pid' in a or a.startswith('P == ') or a.endswith(' == P')) and '==' in a for a in cond.implied(f)):
                     leak = True
         if leak:
             rep.bad('MK3', sf, ins[0], 'a party other than the designated receiver computes its input from opened values')
